@@ -38,6 +38,7 @@ contract(CMD + "CapabilitiesResponse._parse_capabilities#wf",
          modifies=["self._capabilities", "self._additional_capabilities"],
          ensures={"additional_flag_is_second_to_last_byte": "self._additional_capabilities == (payload[len(payload) - 2] != 0)"},
          loops={"0": {
+             "match": "range(0, count)",
              "ghost_init": {"off": "2"},
              "modifies": ["self._capabilities"],
              "havoc": {"self._capabilities": "symdict:CAP_KEYS", "off": "nat"},
